@@ -25,7 +25,7 @@ func prefixDefs(ast types.MalType, prefix string) types.MalType {
 		case types.List:
 			if len(x.Val) >= 2 {
 				if h, ok := x.Val[0].(types.Symbol); ok && (h.Val == "def" || h.Val == "defmacro") {
-					if n, ok := x.Val[1].(types.Symbol); ok {
+					if n, ok := x.Val[1].(types.Symbol); ok && !strings.HasPrefix(n.Val, "scratch") { // scratch*: defined inside a call, local by construction, same name in every thread
 						defs[n.Val] = true
 					}
 				}
@@ -122,6 +122,15 @@ func c11Template(r *Rng, hist map[string]int) string {
 	case 13:
 		hist["shape:futures-in-let-bindings-while-later-bindings-are-written"]++
 		return fmt.Sprintf("(let [x %d f1 (future (do (yield!) (* x 2))) a (+ x 1) f2 (future (do (yield!) (+ x a))) b (+ a 1) c (+ b 1)] (do (def d (+ c 1)) (+ (+ @f1 @f2) (+ (+ a b) (+ c d)))))", p)
+	case 16:
+		hist["shape:def-inside-thunk-same-scratch-name-in-every-thread"]++
+		return c11Expect(fmt.Sprintf("((fn [] (do (def scratch %d) (yield!) (def scratch2 (* scratch 2)) (sleep 1) (yield!) [scratch scratch2])))", p), fmt.Sprintf("[%d %d]", p, 2*p))
+	case 17:
+		hist["shape:def-inside-sibling-future-bodies-same-scratch-name"]++
+		return c11Expect(fmt.Sprintf("(let [f1 (future (do (def scratch %d) (sleep 1) (yield!) scratch)) f2 (future (do (def scratch %d) (sleep 1) (yield!) scratch))] [@f1 @f2 (try scratch (catch e :unbound))])", p, q+100), fmt.Sprintf("[%d %d :unbound]", p, q+100))
+	case 18:
+		hist["shape:future-reads-parameter-later-shadowed-by-tail-let"]++
+		return c11Expect(fmt.Sprintf("((fn [x] (let [fu (future (do (sleep 2) (yield!) x))] (let [x (* x 100)] (list @fu x)))) %d)", p), fmt.Sprintf("(%d %d)", p, 100*p))
 	case 15:
 		// a try at the very top of the program: its catch variable must not land in the shared root scope
 		hist["shape:top-level-try-catch-variable"]++
@@ -131,6 +140,11 @@ func c11Template(r *Rng, hist map[string]int) string {
 		return fmt.Sprintf("((fn [x y] (do (def fu (future (do (yield!) (* x (do (yield!) y))))) (def t1 (+ x y)) (def t2 (* t1 2)) (+ @fu t2))) %d %d)", p, q)
 	}
 }
+
+// prescribed results of the shapes whose wrong behaviour would be the same alone and in company
+var c11Want = map[string]string{}
+
+func c11Expect(src, want string) string { c11Want[src] = want; return src }
 
 const c11Shared = "(do (def shared-k 10) (def shared-v [1 2 3]) (def shared-add (fn [a b] (+ a b))))"
 
@@ -193,6 +207,10 @@ func runC11(tier string, seed uint64, rep *Report) {
 			select {
 			case o := <-done:
 				progs[t].solo = c11Line(o, lt)
+				if want, ok := c11Want[progs[t].src]; ok && !progs[t].model && Show(o.Val) != want {
+					idx := rep.Add("P n", "V n | l 0 ", progs[t].src, true, "program:template-with-prescribed-result")
+					rep.Violate(idx, fmt.Sprintf("evaluated alone on a fresh environment the program gives %s, the scoping rules prescribe %s", Show(o.Val), want), progs[t].src)
+				}
 				if !progs[t].model && !strings.HasPrefix(progs[t].solo, "V") {
 					panic("harness: the hand-written shape does not evaluate to a value alone: " + progs[t].src + " => " + progs[t].solo)
 				}
@@ -233,7 +251,7 @@ func runC11(tier string, seed uint64, rep *Report) {
 			emergencyFlush(rep)
 		}
 		// the local names every shape uses must not have become visible in the shared root scope
-		for _, local := range []string{"x", "y", "acc", "e", "e2", "n", "form", "a", "b", "c", "d", "f1", "f2", "q"} {
+		for _, local := range []string{"x", "y", "acc", "e", "e2", "n", "form", "a", "b", "c", "d", "f1", "f2", "q", "scratch", "scratch2", "fu"} {
 			o, answered := w.EvalTextWithin(local, 10*time.Second)
 			if !answered {
 				idx := rep.Add("P n", "V n | l 0 ", "batch "+fmt.Sprint(b), true, "batch:hung")
@@ -271,7 +289,10 @@ func runC11(tier string, seed uint64, rep *Report) {
 
 // shapePick: the shapes that share a local scope between an evaluation and a future it started get a third of the weight
 func shapePick(r *Rng) int {
-	k := r.Intn(20)
+	k := r.Intn(23)
+	if k >= 20 {
+		return 16 + k%3
+	}
 	if k >= 18 {
 		return 15
 	}
